@@ -43,6 +43,19 @@ def env(runner="I", package=None, annotations=None):
     return celpy.Environment(package=package, annotations=dict(annotations), runner_class=RUNNERS[runner])
 
 
+def _vary_environment_order(ident):
+    """forked workers start without cached environments and create the default two in an order that depends on the worker:
+    which runner class an application happens to create first is no part of any property"""
+    _ENVS.clear()
+    _PROGS.clear()
+    for r in (("I", "C") if ident % 2 else ("C", "I")):
+        env(r)
+
+
+from . import core as _core     # noqa: E402
+_core.WORKER_INIT.append(_vary_environment_order)
+
+
 class Outcome(dict):
     """{"k": "val", "v": <celpy object>} | {"k": "err"} | {"k": "parse", line, column} | {"k": "exc", "cls", "phase", "msg"}"""
 
@@ -311,6 +324,8 @@ def outcome_abs(o: Outcome):
 
 
 # ---- CEL source for an abstract value ----
+INT_HEX = False          # set by a check that wants its integer literals spelled in hexadecimal
+UINT_SUFFIX = "u"        # ... or its uint literals with the upper-case suffix
 TS_OFFSETS = [0, 60, -210, 345]      # minutes: Z, +01:00, -03:30, +05:45
 
 
@@ -318,11 +333,13 @@ def lit(a) -> str:
     t = a["t"]
     if t == "int":
         n = a["v"]
+        if INT_HEX:
+            return "(-0x%X)" % -n if n < 0 else "0x%x" % n
         if n == -(2**63):
             return "(-9223372036854775807 - 1)"
         return "(%d)" % n if n < 0 else "%d" % n
     if t == "uint":
-        return "%du" % a["v"]
+        return ("0x%X%s" if INT_HEX else "%d%s") % (a["v"], UINT_SUFFIX)
     if t == "double":
         x = a["v"]
         if math.isnan(x):
